@@ -90,7 +90,7 @@ def read_errors(text):
 class C02(PipelineCheck):
     ID = 'C02'
     RULE = ('one evaluation = one Java program text (original or erased) handed to the REAL javac '
-            '17: a simulated run generates a batch of 1-3 programs one after the other in one '
+            '17: a simulated run generates a batch of 1-5 programs one after the other in one '
             'process (as the driver does) under the choice tape with buggify and the switch swarm, '
             'applies 0-2 erasure rounds, writes original and erased texts in the driver\'s layout '
             '(<tmp>/src/<package>/Main.java) and starts javac exactly as JavaCompiler builds the '
